@@ -481,11 +481,19 @@ def check(prop_id, tier="quick", base_seed=0, runs=None, jobs=None, out=print, w
             out("VIOLATION property=%s replay=%s" % (prop_id, e["_path"]))
             replay_paths.append(e["_path"])
         new.sort(key=lambda e: (-e["count"], fp_key(e["fp"])))
+        if len(new) > 3:
+            out("%d unlisted fingerprints:" % len(new))
+            for e in new:
+                out("   %5d  %s" % (e["count"], fp_key(e["fp"])))
+                if os.environ.get("DSIM_VERBOSE"):
+                    out("          " + e["message"][:700].replace("\n", "\n          "))
         for e in new[: (50 if keep_going else 8)]:
             sc = e["scenario"]
             orig = size_of(sc)
             if not sc.get("hang") and not harness_errors:
-                sc, _ = minimise(pool, prop_id, prop, sc, e["fp"], hashseed=e["hashseed"], log=lambda s: out("  " + s))
+                nmin = getattr(check, "_nmin", 0)
+                check._nmin = nmin + 1
+                sc, _ = minimise(pool, prop_id, prop, sc, e["fp"], budget=400 if nmin < 3 else 60, hashseed=e["hashseed"], log=lambda s: out("  " + s))
                 resp = pool.run([{"prop": prop_id, "scenario": sc, "hashseed": e["hashseed"], "tier": tier}])[0]
                 if resp.get("status") == "ok":
                     e["digest"] = resp["result"]["digest"]
